@@ -324,6 +324,97 @@ def run(loader, R, tier):
         _sym.visit_guarded(f["body"], cb2)
     R.floor("narrowing casts in the parser sources", ncast, 4)
 
+    # ---------------------------------------------------------------- R18.3
+    # hand-written parser code: a position obtained from find*() is npos when
+    # nothing is found; substr/erase/at/operator[] with it throws
+    # std::out_of_range (not a library exception) or reads out of bounds
+    R.rule("R18.3", "string positions from find*() are tested against npos "
+                    "before they are used as positions in the hand-written "
+                    "parser code")
+    from selib import sym as _sym3
+    FIND = {"find", "rfind", "find_first_of", "find_first_not_of",
+            "find_last_of", "find_last_not_of"}
+    nfind = 0
+    nctl = 0
+    for u, f in sorted(prog.functions.items(), key=lambda kv: kv[1]["qn"]):
+        control = f["qn"].startswith("verif_positive::")
+        fn_ = f.get("file") or ""
+        if not f.get("body") or f.get("dependent") or not (
+                control or ("/symengine/parser/" in fn_
+                            and not fn_.endswith((".tab.cc", ".tab.hh",
+                                                  "tokenizer.cpp",
+                                                  "parser_old.cpp")))):
+            continue
+        from_find = {}
+        for d in walk(f["body"]):
+            if d.get("k") == "decl":
+                for v in d.get("v", ()):
+                    i = v.get("i")
+                    if i is not None and any(
+                            x.get("k") == "mcall" and x.get("n") in FIND
+                            for x in walk(i)):
+                        from_find[v["n"]] = show(i)[:40]
+            if d.get("k") in ("bin", "op") and d.get("op") == "=" \
+                    and d.get("a") and d["a"][0].get("k") == "ref" \
+                    and any(x.get("k") == "mcall" and x.get("n") in FIND
+                            for x in walk(d["a"][1])):
+                from_find[d["a"][0]["n"]] = show(d["a"][1])[:40]
+        if not from_find:
+            continue
+
+        def cb3(n, guards, line, f=f, from_find=from_find, control=control):
+            nonlocal nfind, nctl
+            pos = None
+            if n.get("k") == "mcall" and n.get("n") in (
+                    "substr", "erase", "at") and n.get("a"):
+                pos = n["a"][0]
+            elif n.get("k") in ("op", "bin") and n.get("op") == "[]" \
+                    and len(n.get("a", ())) == 2 and "string" in (
+                        n["a"][0].get("t") or ""):
+                pos = n["a"][1]
+            if pos is None:
+                return
+            names = [x["n"] for x in walk(pos) if x.get("k") == "ref"
+                     and x.get("n") in from_find]
+            if not names:
+                return
+            ok = False
+            for g in _sym3.flatten_guards(guards):
+                if g[0] == "case":
+                    continue
+                cnd, pol = g
+                t = show(cnd)
+                if "npos" in t and cnd.get("k") in ("bin", "op") and (
+                        (cnd.get("op") == "!=" and pol)
+                        or (cnd.get("op") == "==" and not pol)) \
+                        and any(nm in t for nm in names):
+                    ok = True
+                if any(nm in t for nm in names) and ("size()" in t
+                                                     or "length()" in t) \
+                        and cnd.get("op") in ("<", "<=", ">", ">="):
+                    ok = True
+            if control:
+                nctl += 0 if ok else 1
+                return
+            nfind += 1
+            key = "%s@%s" % (short(f["qn"]), n.get("l"))
+            R.instance("R18.3", key, sample={"use": show(n)[:60],
+                                             "tested": ok})
+            if not ok:
+                R.violation(
+                    "R18.3", short(f["qn"]), prog.loc(f, n.get("l")),
+                    "%s uses `%s` (from %s) as a string position in `%s` "
+                    "without testing it against npos or the length: when "
+                    "the search finds nothing the call throws "
+                    "std::out_of_range, which escapes parse() as a "
+                    "non-library exception, or indexes out of bounds" % (
+                        short(f["qn"]), names[0], from_find[names[0]],
+                        show(n)[:50]))
+        _sym3.visit_guarded(f["body"], cb3)
+    R.info["find_derived_positions_in_parser_code"] = nfind
+    R.floor("positive control (verif_positive::tail_after_digits) "
+            "recognised", nctl, 1)
+
 
 MANIFEST = dict(
     technique="reset-completeness dataflow (must-write before may-read) "
